@@ -247,7 +247,7 @@ def hist_case(spec, log):
                         r, exp = 'RAISED:%s:%s' % (type(e).__name__, str(e)[:80]), '-'
                     dur = time.monotonic() - t1
                     n_calls += 1
-                    if r != exp or dur > 3.0:
+                    if r != exp or dur > 5.0:
                         if len(bad) < 20:
                             bad.append({'history': [OPS[x] for x in h], 'op': op, 'ret': repr(r), 'expected': repr(exp), 'dur': round(dur, 3), 'first_op_of_worker': OPS[first]})
                         log.ev('bad', history=[OPS[x] for x in h], op=op, ret=repr(r), dur=round(dur, 3))
